@@ -101,8 +101,8 @@ impl Check for C14 {
     }
     fn cases(&self, tier: Tier) -> u64 {
         match tier {
-            Tier::Quick => 360,
-            Tier::Thorough => 6000,
+            Tier::Quick => 1200,
+            Tier::Thorough => 9000,
         }
     }
     fn gen(&self, seed: u64, i: u64, _tier: Tier) -> Value {
@@ -180,8 +180,12 @@ impl Check for C14 {
             && cfg.file_out.is_none();
         let other_entry: Vec<bool> = (0..n).map(|k| k > 0 && !force_kind && shared_layout && (i / 11) % 3 == 0 && pr.chance(1, 2)).collect();
         let mut fr = r.split("force");
-        let cache_state = CACHE_STATES[((i / 3) % CACHE_STATES.len() as u64) as usize].to_string();
-        let (force_flag, force_cfg) = match fr.below(5) {
+        // the force matrix is walked systematically: (cache state) x (force source) x (setup);
+        // i = 3*fk + 2 visits every setup for every cell because 3 is coprime to the setup count
+        let fk = i / 3;
+        let cache_state = CACHE_STATES[(fk % CACHE_STATES.len() as u64) as usize].to_string();
+        let _ = fr.below(5);
+        let (force_flag, force_cfg) = match (fk / CACHE_STATES.len() as u64) % 5 {
             0 => (true, None),
             1 => (false, Some(true)),
             2 => (true, Some(true)),
@@ -379,11 +383,28 @@ impl Check for C14 {
                     return co;
                 }
             };
+            let forced = c.force_flag || c.force_cfg == Some(true);
+            // Evidence that a forced run really regenerates, independent of HOW the tool writes
+            // (a tool may legitimately skip rewriting a file whose content is already right): one
+            // generated file is damaged behind the cache's back; honouring the cache would keep
+            // the damage, regenerating removes it.
+            let mut damaged: Option<String> = None;
+            if forced {
+                for cand in ["commands.ts", "types.ts", "index.ts"] {
+                    let p = w.out_dir(&c.setup).join(cand);
+                    if p.is_file() {
+                        let mut t = std::fs::read(&p).unwrap_or_default();
+                        t.extend_from_slice(b"\nexport const damagedBehindTheCachesBack = 1;\n");
+                        std::fs::write(&p, t).unwrap();
+                        damaged = Some(cand.to_string());
+                        break;
+                    }
+                }
+            }
             let before_files = scen::out_files(&w, &c.setup);
             let r = scen::run_tool(env, &w, &c.setup, &cfg2, c.procs[1].clone(), c.force_flag, c.verbose[1]);
             co.count("processes", 3);
             let after_files = scen::out_files(&w, &c.setup);
-            let forced = c.force_flag || c.force_cfg == Some(true);
             let label = format!(
                 "cache={} flag={} cfg={:?} {}",
                 c.cache_state,
@@ -401,10 +422,16 @@ impl Check for C14 {
             } else if forced {
                 co.count("forced_runs", 1);
                 let written: Vec<String> = r.res.written_names();
-                let missing: Vec<&String> = reference
-                    .keys()
-                    .filter(|n| !written.contains(n))
+                let not_rewritten: Vec<&String> = reference.keys().filter(|n| !written.contains(n)).collect();
+                if not_rewritten.is_empty() {
+                    co.count("forced_runs_that_rewrote_every_file", 1);
+                }
+                // the damaged file must be back to the reference content
+                let still_damaged: Vec<&String> = damaged
+                    .iter()
+                    .filter(|d| after_files.get(*d).map(|b| String::from_utf8_lossy(b).contains("damagedBehindTheCachesBack")).unwrap_or(true))
                     .collect();
+                let missing = still_damaged;
                 if !missing.is_empty() {
                     let which = if c.force_flag && c.force_cfg == Some(false) {
                         "flag-vs-config"
@@ -415,8 +442,8 @@ impl Check for C14 {
                     };
                     co.violate(
                         format!("C14/force-ignored/{}", which),
-                        "B: with a force source on, every file of the reference generation is written in this run",
-                        format!("{}: not rewritten: {:?}", label, missing),
+                        "B: with a force source on, the bindings are regenerated regardless of the cache (a file damaged behind the cache's back is restored)",
+                        format!("{}: still damaged after the forced run: {:?}", label, missing),
                     );
                 } else {
                     let bad = canon::compare_to_reference(&after_files, &reference, Cmp::Canon, false);
